@@ -78,6 +78,30 @@ def run(payload):
                     fail("stop", dt=dt, N=N, t0=t0, stop_at=stop_at, exception=exc.__name__, stopper_first=first, backend=backend, t_final=c["t_final"],
                          recorder_last=recorder.times[-1] if recorder.times else None, storage_last=storage.times[-1] if storage.times else None,
                          stop_reason=c.get("stop_reason"), successful=c.get("successful"))
+    # ---- adaptive steppers: trackers are served exactly at their scheduled times and the run ends exactly at t_end
+    for k in range(max(2, payload.get("n", 12) // 3)):
+        backend = "numpy" if k % 2 else "numba"
+        solver = ["runge-kutta", "euler"][(k // 2) % 2]
+        t0 = float(rng.choice([0.0, 1.0]))
+        T = float(rng.choice([1.0, 2.0, 2.6]))
+        D = float(rng.choice([0.5, 0.4, 0.7]))
+        rec = Rec(D)
+        storage = MemoryStorage()
+        init = ScalarField(grid, rng.uniform(0, 1, 5))
+        cases += 1
+        try:
+            res, info = eq.solve(init, t_range=(t0, t0 + T), dt=1e-3, tracker=[rec, storage.tracker(D)], backend=backend, solver=solver, adaptive=True, tolerance=1e-5, ret_info=True)
+        except Exception as e:
+            fail("adaptive_error", backend=backend, solver=solver, error=f"{type(e).__name__}: {e}")
+            continue
+        sched = [t0 + j * D for j in range(int(math.floor(T / D + 1e-9)) + 1)]
+        tf = info["controller"]["t_final"]
+        ok = (len(rec.times) in (len(sched), len(sched) + 1) and all(abs(a - b) <= 1e-9 * max(1, abs(b)) for a, b in zip(rec.times, sched))
+              and abs(tf - (t0 + T)) <= 1e-9 * max(1, abs(t0 + T)) and list(storage.times) == rec.times)
+        if len(rec.times) == len(sched) + 1:
+            ok = ok and abs(rec.times[-1] - (t0 + T)) < 1e-9
+        if not ok:
+            fail("adaptive_schedule", backend=backend, solver=solver, t0=t0, T=T, D=D, times=rec.times, scheduled=sched, t_final=tf)
     return {"ok": True, "cases": cases, "failures": fails}
 
 
